@@ -15,6 +15,7 @@ CONSTANTS
  Goals = {1, 2, 3}
  Origins = {"o"}
  AdvKinds = {}
+ AdvSrcs = {"adv"}
  TrackWire = TRUE
  UseIds = TRUE
  NodeTeardown = TRUE
